@@ -8,7 +8,7 @@
   REPLAY n ne (a b)*ne nin gate*nin nfm gate*nfm nact action*nact
       -> per action "p2l l2p len last ;" then "F" final routed list
          "#" guard bits "#" mapsOk bits "#" pickCheck(input, executed ++ final measurements)
-  STAR n mid nq gate*nq         -> routed list "|" l2p   (or ERR)
+  STAR n mid nq gate*nq         -> routed list "|" l2p "#" guards of the generated actions on the star graph (or ERR)
   PICK nin gate*nin nout gate*nout -> 0/1
   DAG m (k q1..qk)*m            -> edge list
 -/
@@ -103,9 +103,11 @@ def handle : P String := do
     let n ← nextNat
     let mid ← nextNat
     let q ← nextGates
-    match starRoute n mid q with
-    | none => pure "ERR"
-    | some s => pure s!"{showGates s.routed} | {showNats s.l2p}"
+    match starRoute n mid q, starTrace mid (init n) q with
+    | some s, some as =>
+      let es := ((List.range n).filter (· != mid)).map fun x => (mid, x)
+      pure s!"{showGates s.routed} | {showNats s.l2p} # {bit (guardsOk n es (init n) as)}"
+    | _, _ => pure "ERR"
   | "PICK" =>
     let a ← nextGates
     let b ← nextGates
